@@ -262,7 +262,7 @@ func (e *Engine) callEffects(fc *FnCtx, c *ast.CallExpr) callEff {
 		}
 	}
 	if oc := fc.findOnCall(name, pkgPath, kind, false, c); oc != nil && !oc.Also {
-		return callEff{heap: !oc.NoHavoc, objs: !oc.NoHavoc}
+		return callEff{heap: !oc.NoHavoc || oc.HeapOnly, objs: !oc.NoHavoc}
 	}
 	return callEff{heap: true, objs: true}
 }
